@@ -197,6 +197,16 @@ Example C02_list_example :
                             SetGaid GNone; IAdd [1%nat]]) = true.
 Proof. vm_compute. repeat split; reflexivity. Qed.
 
+(* extended slices: del l[::-1], l[::2], l[::-2] ... go through the same dry run as contiguous
+   slices - every selected item is checked against the list as it shrinks *)
+Example C02_list_xslice_example :
+  map (fun p => snd (step OAsset (mkSt true GNone [0; 1; 2]%nat) p))
+      [DelXSlice None None (-1); DelXSlice None None 2; DelXSlice (Some 1) None (-2); DelXSlice None None 0]
+  = [Err (EAASd 131); OK; OK; Err EValue]
+  /\ items (run OAsset (mkSt true GNone [0; 1; 2]%nat) [DelXSlice None None 2; DelXSlice None None (-1)]) = [1%nat]
+  /\ items (run OEntity (mkSt true (GOk 0) [0; 1; 2; 3]%nat) [DelXSlice (Some (-1)) (Some 0) (-2); DelXSlice None None (-1)]) = [].
+Proof. vm_compute. repeat split; reflexivity. Qed.
+
 (* AASd-118 on assignment to semantic_id holds for free-standing and for contained objects alike
    (owner OSem: etype = contained in a namespace; the setter is gen.Gen_SemSetter, translated
    with its `self.parent` branches and early returns) *)
